@@ -68,6 +68,7 @@ func (r *Runner) addObs(o *Obs) {
 }
 
 func guard(o *Obs, f func()) {
+	defer watch(fmt.Sprintf("%s(s%d,%s)", o.Kind, o.Scope, o.Ident))()
 	defer func() {
 		if p := recover(); p != nil {
 			o.Panic = p
